@@ -133,7 +133,8 @@ Section PreciseSteps.
   Hypothesis R_trans : forall mi s1 s2 s3, R mi s1 s2 -> R mi s2 s3 -> R mi s1 s3.
   (** log entries other than the two that carry meaning for limits *)
   Hypothesis R_log : forall mi s e,
-    fst (fst e) <> LOG_DEC -> fst (fst e) <> LOG_CHANGE -> R mi s (add_log s e).
+    fst (fst e) <> LOG_DEC -> fst (fst e) <> LOG_CHANGE ->
+    fst (fst e) <> LOG_SIGSET -> fst (fst e) <> LOG_SIGDELIVER -> R mi s (add_log s e).
   Hypothesis R_step : forall mi s, R mi s (add_step s).
   Hypothesis R_pos : forall mi s p, (pos s <= p)%nat -> R mi s (set_pos s p).
   (** the machine ends *)
@@ -153,7 +154,9 @@ Section PreciseSteps.
     R mi s (set_rt (add_log s (LOG_DEC, N.of_nat mi, 0)) mi
                    (if 0 <? lim r then rt_set_lim r (lim r - 1) else r)).
   Hypothesis R_slot : forall mi s a, sched_ok c mi a -> R mi s (set_slot s mi a).
-  Hypothesis R_sig : forall mi s g, R mi s (set_sigp s g).
+  (** the machine signals *)
+  Hypothesis R_sigset : forall mi s,
+    R mi s (set_sigp (add_log s (LOG_SIGSET, N.of_nat mi, 0)) (Some (sig_join (sigp s) mi))).
 
   Ltac rlog_side := let Hc := fresh in (intro Hc; vm_compute in Hc; discriminate Hc).
   (* first the log entry [E], then the rest *)
@@ -247,7 +250,7 @@ Section PreciseSteps.
     destruct (ns =? STATE_END) eqn:Ens;
       [inversion H; subst; eapply R_trans; [exact H2|apply (R_end mi s1 r); exact Er]|].
     destruct (ns =? STATE_SIGNAL) eqn:Esg;
-      [inversion H; subst; eapply R_trans; [exact H2|]; rlogthen (LOG_SIGSET, N.of_nat mi, 0); apply R_sig|].
+      [inversion H; subst; eapply R_trans; [exact H2|exact (R_sigset mi s1)]|].
     mbind H as s2 E2.
     assert (H3 : R mi s s2).
     { destruct (N.eqb_spec (cur r) ns) as [Heq|Hneq]; cbn [negb] in E2; [inversion E2; subst; exact H2|].
@@ -313,6 +316,10 @@ Section Preorder.
     apply (R_rt mi _ r); [exact Hr|destruct (0 <? lim r); sa].
   Qed.
 
+  Lemma R_sigset_coarse : forall mi s,
+    R mi s (set_sigp (add_log s (LOG_SIGSET, N.of_nat mi, 0)) (Some (sig_join (sigp s) mi))).
+  Proof. intros mi s. eapply R_trans; [apply R_log|apply R_sig]. Qed.
+
   Lemma schedule_action_R : forall s mi st s',
     schedule_action c tp s mi st = Ok s' -> R mi s s'.
   Proof.
@@ -334,6 +341,7 @@ Section Preorder.
     - intros; eapply R_rt; eauto; sa.
     - apply R_change_coarse.
     - intros; eapply R_rt; eauto.
+    - apply R_sigset_coarse.
   Qed.
 
   Lemma decrement_limit_R : forall s mi s', decrement_limit c tp s mi = Ok s' -> R mi s s'.
@@ -343,6 +351,7 @@ Section Preorder.
     - apply R_change_coarse.
     - intros; eapply R_rt; eauto.
     - apply R_dec_coarse.
+    - apply R_sigset_coarse.
   Qed.
 
   Lemma trans_dec_R : forall s mi ev dec s', trans_dec c tp s mi ev dec = Ok s' -> R mi s s'.
